@@ -752,6 +752,11 @@ func pow(args []object.Object) object.Object {
 }
 
 func sprintf(args []object.Object) object.Object {
+	for _, a := range args[1:] {
+		if object.DeeperThan(a, object.MaxInspectDepth) { // fmt recurses on the nesting, a Go stack overflow is fatal.
+			return object.Error{Value: "sprintf argument nested too deep"}
+		}
+	}
 	res := fmt.Sprintf(args[0].(object.String).Value, object.Unwrap(args[1:], false)...)
 	return object.String{Value: res}
 }
@@ -768,6 +773,9 @@ func jsonSer(env any, _ string, args []object.Object) object.Object {
 
 func jsonSerGo(env any, _ string, args []object.Object) object.Object {
 	s := env.(*eval.State)
+	if object.DeeperThan(args[0], object.MaxInspectDepth) { // encoding/json recurses on the nesting.
+		return s.NewError("json_go argument nested too deep")
+	}
 	v := args[0].Unwrap(true)
 	var err error
 	var buf bytes.Buffer
